@@ -464,6 +464,27 @@ func sibling(c *engine.Ctx, id, relA, relB string, subst [][2]string, exempt map
 		}
 		onlyA, onlyB := engine.DiffMultiset(a, b)
 		if len(onlyA)+len(onlyB) > 0 {
+			// the layouts differ: do the two variants still DO the same? (same callees, literals, fields,
+			// operators, case expressions, literal types — control structure, names and helpers apart)
+			aa, ab := c.P.Atoms(fa, subst), c.P.Atoms(g, subst)
+			var da, db []string
+			for k := range aa {
+				if !ab[k] {
+					da = append(da, k)
+				}
+			}
+			for k := range ab {
+				if !aa[k] {
+					db = append(db, k)
+				}
+			}
+			if len(da)+len(db) == 0 {
+				o.Site(name + ": laid out differently, same atoms")
+				continue
+			}
+			sort.Strings(da)
+			sort.Strings(db)
+			onlyA, onlyB = append(da, onlyA...), append(db, onlyB...)
 			show := func(l []string) string {
 				if len(l) > 3 {
 					l = l[:3]
